@@ -24,6 +24,19 @@ def rt(v):
     return canon_val(val_to_json(v))
 
 
+def _canon_default_text(v):
+    if v is None or v in ("None", "```(None)```"):
+        return "None"
+    if isinstance(v, ast.AST):
+        # (the recorded finding: a negative default under a documented str type is left as a node - it is the right
+        # argument's default all the same, which is what this layer is about)
+        try:
+            v = ast.literal_eval(v)
+        except Exception:
+            return "<ast>"
+    return "%s:%r" % (type(v).__name__, v)
+
+
 class C07(Prop):
     id = "C07"
     quick_cases = 800
@@ -106,6 +119,7 @@ class C07(Prop):
         except Exception:
             pass
         res = []
+        res += self.pair_ops(c)
         r = random.Random(c["sigma_seed"])
         for t, o, out in rec:
             inter = [k for k, _ in o if k in {x for x, _ in t}]
@@ -114,7 +128,30 @@ class C07(Prop):
             res.append(("ir_merge", op, {"ok": [[k, canon_param(p)] for k, p in out]}))
         return res
 
+    def pair_ops(self, c):
+        """Sig.pairArgs (which stored default belongs to which argument) vs the defaults parse.function attaches"""
+        if c["form"] == "class_init":
+            return []
+        src = self.source(c)
+        mod = ast.parse(src)
+        node = mod.body[0].body[0] if c["facts"]["method"] else mod.body[0]
+        a = node.args
+        pos = [x.arg for x in a.args if x.arg not in ("self", "cls")]
+        op = {"op": "pair_args", "args": pos, "defaults": [ast.unparse(d) for d in a.defaults],
+              "kwonly": [x.arg for x in a.kwonlyargs], "kw_defaults": [None if d is None else ast.unparse(d) for d in a.kw_defaults]}  # fmt: skip
+        try:
+            ir = self.parse_it(c)
+        except Exception:
+            return []
+        got = []
+        for n in pos + op["kwonly"]:
+            q = ir["params"].get(n, {})
+            got.append([n, _canon_default_text(q["default"]) if "default" in q else None])
+        return [("pair_args", op, {"ok": got})]
+
     def canon_model(self, layer, op, ans):
+        if layer == "pair_args" and "ok" in ans:
+            return {"ok": [[n, None if t is None else _canon_default_text(ast.literal_eval(t))] for n, t in ans["ok"]]}
         if "ok" in ans:
             return {"ok": [[k, canon_param(p)] for k, p in ans["ok"]]}
         return ans
